@@ -1194,7 +1194,13 @@ func (s *Store) AssignManualServiceVIPs(idx uint64, psn structs.PeeredServiceNam
 		}
 	}
 
-	return true, maps.SliceOfKeys(modifiedEntries), nil
+	// Return the modified services in a fixed order: this result is part of the
+	// reply to a replicated command and must not depend on map iteration order.
+	unassignedFrom := maps.SliceOfKeys(modifiedEntries)
+	sort.Slice(unassignedFrom, func(i, j int) bool {
+		return unassignedFrom[i].String() < unassignedFrom[j].String()
+	})
+	return true, unassignedFrom, nil
 }
 
 func updateVirtualIPMaxIndexes(txn WriteTxn, idx uint64, partition, peerName string) error {
